@@ -50,6 +50,7 @@ class StoreDirectoriesDisjoint(Lemma):
     name = 'C18.f-distinct-contexts-use-distinct-files'
     props = ('C18',)
     doc = 'stores of distinct (model, pipeline) under one artifact_dir never touch the same file (names without "/")'
+    cvc5_first = True     # pure word equations
 
     def obligations(self, it):
         a, m1, p1, m2, p2, k1, k2 = z3.Strings('a m1 p1 m2 p2 k1 k2')
